@@ -16,7 +16,9 @@ Clauses(rec) ==
   (IF mons \cap {1, 2, 5} # {} THEN {"C05:double-or-foreign-close-or-bad-free"} ELSE {}) \cup
   (IF rec.failed_children_unreaped # 0 THEN {"C05:child-of-failed-start-left-unreaped"} ELSE {}) \cup
   (IF mons \cap {3, 4, 9} # {} THEN {"C06:kill-or-waitpid-on-foreign-pid"} ELSE {}) \cup
-  (IF mons \cap {6, 7} # {} THEN {"C14:use-of-bad-descriptor-or-child-side-crash"} ELSE {})
+  (IF mons \cap {6, 7} # {} THEN {"C14:use-of-bad-descriptor-or-child-side-crash"} ELSE {}) \cup
+  \* a poll that could not get its working memory says so: "nothing left to poll" (or an event) is a statement about the streams
+  (IF rec.hitfn = "poll" /\ rec.gkind = 20 /\ rec.hitr # -12 THEN {"C09:poll-reports-something-else-than-out-of-memory"} ELSE {})
 
 VARIABLES l, bad
 vars == <<l, bad>>
